@@ -161,11 +161,16 @@ impl Span {
 
         #[cfg(feature = "enable")]
         {
-            let token = parents
+            let token: CollectToken = parents
                 .into_iter()
                 .filter_map(|span| span.inner.as_ref())
                 .flat_map(|inner| inner.issue_collect_token())
                 .collect();
+            // Without a recording parent the span belongs to no trace: it is a no-op span, like
+            // the one returned by `enter_with_parent()` for a no-op parent.
+            if token.is_empty() {
+                return Self::noop();
+            }
             Self::new(token, name, None)
         }
     }
